@@ -690,7 +690,10 @@ void World::doParam(const Step &st, StepRecord &rec) {
     for (size_t v = 0; v < nvals && k < st.i.size(); ++v, ++k) vals.push_back(st.i[k]);
     std::vector<std::string> svals(st.s.begin() + 3, st.s.end());
 
-    EParam p(st.s[1], st.s[2]);
+    // lock field: 0 unlocked, 1 locked, 2 locked then unlocked again, 3 locked + name/description given through the setters
+    int lockMode = static_cast<int>(st.i[1]);
+    EParam p(lockMode == 3 ? std::string("tmp_name") : st.s[1], lockMode == 3 ? std::string("tmp description") : st.s[2]);
+    if (lockMode == 3) { p.name(st.s[1]); p.description(st.s[2]); }
     if (type != 0 && preset) p.set(7);
     SnapParam pre = snap_param(p);
     bool setThrew = false;
@@ -733,7 +736,12 @@ void World::doParam(const Step &st, StepRecord &rec) {
     // (a caller that catches the range_error goes on using the parameter with the value it held before: it is handed over)
     if (setThrew) probe("param.handed-over-after-refused-set");
     if (lock) p.lock();
+    if (lockMode == 2) p.unlock();
     SnapParam handed = snap_param(p);
+    if (handed.name != st.s[1] || handed.desc != st.s[2] || handed.locked != (lockMode == 1 || lockMode == 3)) {
+        if (on(ORC_C09)) violate("C09", "parameter-object/setters", "Parameter name/description/lock setters did not store what they were given");
+        if (stop) return;
+    }
     Snapshot before = cur;
     std::vector<uint8_t> preImg;
     if (on(ORC_C10)) preImg = preImage();
